@@ -23,7 +23,7 @@ GEN = os.path.join(LEAN, "QuriVerif", "Generated")
 # evidence / replay of runs against a scratch copy of the repository (mutation experiments) never overwrite the
 # evidence of /repo itself
 _SCRATCH = os.path.realpath(REPO) != "/repo"
-EVID = os.path.join("/var/tmp/qv-scratch-evidence" if _SCRATCH else VERIF, "evidence")
+EVID = os.environ.get("VERIF_EVIDENCE_DIR") or os.path.join("/var/tmp/qv-scratch-evidence" if _SCRATCH else VERIF, "evidence")
 REPLAY = os.path.join(VERIF, "replay")
 ALLOWED_AXIOMS = {"propext", "Classical.choice", "Quot.sound"}
 FORBIDDEN = re.compile(
